@@ -273,3 +273,14 @@ package keeper
 //@ trusted
 //@ ensures [index_and_store_agree] err == nil
 //@ ensures [reads_only] nothing_written()
+
+// ---- the slashed stake goes to the fee payers when the dispute is upheld (C13, C05) ----
+//@ func (k Keeper).RewardReporterBondToFeePayers(ctx, feePayer, payerInfo, totalFeesPaid, reporterBond) (rem, err)
+//@ requires [fees_positive] totalFeesPaid > 0 && payerInfo.Amount >= 0 && reporterBond >= 0
+//@ requires [escrow_distinct_from_pools] module("dispute") != module("bonded_tokens_pool") && module("dispute") != module("not_bonded_tokens_pool")
+//@ modifies bank.bal, reporter.*, staking.*
+//@ ensures [remainder_below_one_loya] 0 <= rem && rem < 1000000
+//@ ensures [the_coins_follow_the_stake_out_of_the_escrow] err == nil ==> bank.bal[module("dispute")] == old(bank.bal[module("dispute")]) - arg(AddAmountToStake, amt) && arg(AddAmountToStake, amt) >= 0
+//@ ensures [staked_for_the_fee_payer] called(AddAmountToStake) ==> bytes(arg(AddAmountToStake, acc)) == bytes(feePayer)
+//@ ensures [only_escrow_and_pools_touched] forall a addr :: a != module("dispute") && a != module("bonded_tokens_pool") && a != module("not_bonded_tokens_pool") ==> bank.bal[a] == old(bank.bal[a])
+//@ ensures [supply_unchanged] bank.supply == old(bank.supply)
